@@ -32,28 +32,38 @@ namespace m6 {
 // ------------------------------------------------------------------------------------------------ UTF-8
 inline size_t cpLen(unsigned char b) { return b < 0x80 ? 1 : (b >> 5) == 6 ? 2 : (b >> 4) == 14 ? 3 : 4; }
 
-inline bool validUtf8(const std::string& s) {
-  size_t i = 0;
-  while (i < s.size()) {
-    const unsigned char c = static_cast<unsigned char>(s[i]);
-    size_t n = c < 0x80 ? 1 : (c >> 5) == 6 ? 2 : (c >> 4) == 14 ? 3 : (c >> 3) == 30 ? 4 : 0;
-    if (n == 0 || i + n > s.size()) return false;
-    for (size_t k = 1; k < n; ++k) if ((static_cast<unsigned char>(s[i + k]) >> 6) != 2) return false;
-    i += n;
+// length of the well-formed UTF-8 sequence starting at s[i] (RFC 3629: no overlong forms, no surrogates, <= U+10FFFF), 0 if none
+inline size_t strictSeqLen(const std::string& s, size_t i) {
+  const auto at = [&](size_t k) -> unsigned { return k < s.size() ? static_cast<unsigned char>(s[k]) : 0x100u; };
+  const auto cont = [&](size_t k) { return (at(k) & ~0x3Fu) == 0x80u; };
+  const unsigned c = at(i);
+  if (c < 0x80) return 1;
+  if (c >= 0xC2 && c <= 0xDF) return cont(i + 1) ? 2 : 0;
+  if (c >= 0xE0 && c <= 0xEF) {
+    if (!cont(i + 1) || !cont(i + 2)) return 0;
+    if (c == 0xE0 && at(i + 1) < 0xA0) return 0;   // overlong
+    if (c == 0xED && at(i + 1) >= 0xA0) return 0;  // surrogate
+    return 3;
   }
+  if (c >= 0xF0 && c <= 0xF4) {
+    if (!cont(i + 1) || !cont(i + 2) || !cont(i + 3)) return 0;
+    if (c == 0xF0 && at(i + 1) < 0x90) return 0;   // overlong
+    if (c == 0xF4 && at(i + 1) >= 0x90) return 0;  // beyond U+10FFFF
+    return 4;
+  }
+  return 0;
+}
+inline bool validUtf8(const std::string& s) {
+  for (size_t i = 0; i < s.size();) { const size_t n = strictSeqLen(s, i); if (n == 0) return false; i += n; }
   return true;
 }
 
-// replace every byte that is not part of a structurally valid sequence by '?'
+// replace every byte that is not part of a well-formed sequence by '?'
 inline std::string sanitizeUtf8(const std::string& s) {
   std::string o;
-  size_t i = 0;
-  while (i < s.size()) {
-    const unsigned char c = static_cast<unsigned char>(s[i]);
-    size_t n = c < 0x80 ? 1 : (c >> 5) == 6 ? 2 : (c >> 4) == 14 ? 3 : (c >> 3) == 30 ? 4 : 0;
-    bool ok = n > 0 && i + n <= s.size();
-    for (size_t k = 1; ok && k < n; ++k) ok = (static_cast<unsigned char>(s[i + k]) >> 6) == 2;
-    if (ok) { o.append(s, i, n); i += n; } else { o += '?'; ++i; }
+  for (size_t i = 0; i < s.size();) {
+    const size_t n = strictSeqLen(s, i);
+    if (n) { o.append(s, i, n); i += n; } else { o += '?'; ++i; }
   }
   return o;
 }
